@@ -270,4 +270,33 @@ def C10(rep):
                         "sequentially consistent interleavings only"]
 
 
-RECIPES = {"C10": C10, "C08": C08, "C07": C07, "C01": C01, "C02": C02, "C03": C03, "C04": C04, "C05": C05, "C06": C06, "C09": C09}
+def C15(rep):
+    add_mc(rep, mc_cached("loader", "MC_LoaderA", "MC_LoaderA.cfg", ["LoaderA.tla"], workers=4))
+    known = C.load_known()
+    kf = [x["dev"] for x in known["findings"] if x.get("spec") == "loader"]
+    wd = C.workdir()
+    out = os.path.join(wd, "loader_%d.ndjson" % time.time_ns())
+    st = C.run_fv(["loader-sched", "--runs", n(rep.tier, 600, 12000), "--seed", rep.seed + 1515, "--out", out], timeout=3000)
+    rep.extra.setdefault("driver_stats", []).append(dict(st, driver="loader-sched"))
+    if st.get("stuck", 0) or st.get("step_limit", 0):
+        rep.inconclusive.append("loader-sched: %d stuck, %d step-limit runs not judged" % (st.get("stuck", 0), st.get("step_limit", 0)))
+    hs = C.split_histories(out)
+    r = C.validate_histories(os.path.join(C.SPECS, "loader"), "LoaderTrace", "LoaderTrace.cfg", hs, kf_for=lambda h: kf)
+    rep.validated += r["validated"]
+    rep.accepted += r["accepted"]
+    for k in r["known"]:
+        for d in k["devs"]:
+            rep.known.append({"finding": d, "flavour": "cache-loader", "driver": "loader-sched", "spec": "loader"})
+    for v in r["violations"]:
+        rep.violations.append({"what": "history rejected by Layer A (LoaderTrace) at record %d: %s" % (v["record_index"], v["record"]),
+                               "replay": {"kind": "loader-history", "spec": "loader/LoaderTrace", "driver": "loader-sched",
+                                          "first_unmatched_record": v["record_index"], "history": hs[v["history"]]}})
+    if hs:
+        rep.samples.append({"driver": "loader-sched", "history_head": [json.loads(x) for x in hs[min(3, len(hs) - 1)][:14]]})
+    os.unlink(out)
+    rep.assumptions += ["sync loader only (the async loader runs on a tokio spawner the scheduler does not control)",
+                        "the cache's loader thread is adopted by the scheduler through a guarded hook; invalidation is exercised in single-thread scenarios only",
+                        "Layer A (specs/loader/LoaderA.tla) is written from the property text"]
+
+
+RECIPES = {"C15": C15, "C10": C10, "C08": C08, "C07": C07, "C01": C01, "C02": C02, "C03": C03, "C04": C04, "C05": C05, "C06": C06, "C09": C09}
